@@ -669,4 +669,326 @@ theorem fr_insert_wfs {s : St} (w : WFS s) {pre post : List Ent} {a y : Ent} {as
     · exact ⟨hfree_top e h, hnff e h⟩
     · subst h; exact ⟨fun hf => (by rw [hyf] at hf; cases hf), Or.inl hyc⟩
 
+/-- **the run ends in an in-use header and the merged chunk is the new `dv`** (`free-into-dv`,
+`free-fwd-dv`, `free-back-dv` and the `dispose-*` twins): the old `dv` is one of the headers of the run -/
+theorem fr_dv_wfs {s : St} (w : WFS s) {pre post : List Ent} {a y : Ent} {as : List Ent} {g : Seg} {p : Nat}
+    (W : fr_Win s pre post a as y g p) {h2 : Heap} {rem : List Nat} (u : fr_Unl s h2 rem)
+    (hdvs : s.h.dvsize ≠ 0)
+    (hfree : ∀ e ∈ a :: as, isFree e = true → e.addr ∈ rem ∨ e.addr = s.h.dv)
+    (hrem : ∀ v ∈ rem, ∃ e ∈ a :: as, isFree e = true ∧ e.addr = v)
+    (hdvin : ∃ e ∈ a :: as, e.addr = s.h.dv)
+    (hP : a.addr ∈ rem ∨ a.addr = s.h.dv ∨ a.cin = true)
+    (hyc : y.cin = true) (hy8 : y.size ≠ 8) {S : Nat} (hS : y.addr = a.addr + S)
+    {H : Heap}
+    (hi : HeapIs H (pre ++ [{ addr := a.addr, size := S, cin := false, pin := true, pfoot := a.pfoot },
+      { y with pin := false, pfoot := S }] ++ post) h2.sbins h2.tbins a.addr S s.h.top s.h.topsize) :
+    WFS { s with h := H } ∧ FreeAtTab s.h.ents H.ents p := by
+  have hb := W.bounds w
+  have hnff := W.nff w
+  have ham : a ∈ s.h.ents := W.mem_run a List.mem_cons_self
+  have hym : y ∈ s.h.ents := W.mem y (fr_mem_run.2 (Or.inr rfl))
+  have hys := fr_user_shape w hym hy8
+  have hne : s.segs ≠ [] := fun h => by have := W.hg; rw [h] at this; cases this
+  obtain ⟨_, _, _, xt, _, _, _, htes, hxta, hxtf, _, _, _, _, _, _, _, htop0, _, _⟩ := w.top_parts (w.topsize_ne W.hg)
+  have hxtm : xt ∈ s.h.ents := by rw [htes]; simp
+  obtain ⟨xd, hxdm, hxda, hxdf, hxds, hd32, hdv0, hdvtop⟩ := w.dv_parts hdvs
+  obtain ⟨ed, hedm, heda⟩ := hdvin
+  have : ed = xd := entsOk_addr_inj w.ents (W.mem_run ed hedm) hxdm (by omega)
+  subst this
+  have hS32 : 32 ≤ S := by
+    have := hb.2.1 ed hedm
+    omega
+  have hrt := fr_unl_top w u htop0
+  have hfree_top : ∀ e ∈ a :: as, isFree e = true → e.addr ≠ s.h.top := by
+    intro e he hf heq
+    rcases hfree e he hf with h | h
+    · exact hrt (heq ▸ h)
+    · exact hdvtop (h.symm.trans heq)
+  have hatop : a.addr ≠ s.h.top := by
+    intro heq
+    rcases hP with h | h | h
+    · exact hrt (heq ▸ h)
+    · exact hdvtop (h.symm.trans heq)
+    · have := entsOk_addr_inj w.ents ham hxtm (by omega)
+      subst this
+      rw [(isFree_iff.1 hxtf).1] at h; cases h
+  have hyf : isFree y = false := by simp [isFree, hyc]
+  obtain ⟨hst, fat, fs', hfm⟩ := fr_merge_table w W.hes W.hg W.hgm W.hc W.pin W.a8 hys
+    (m := { addr := a.addr, size := S, cin := false, pin := true, pfoot := a.pfoot })
+    (y' := { y with pin := false, pfoot := S }) (top' := s.h.top)
+    rfl (by simp only; omega) rfl rfl rfl rfl rfl rfl
+    (by simp [linkOk, isFree, hatop, hyc]) (fun _ _ => Iff.rfl) W.cin W.pm
+  have hok' : entsOk H.ents = true := by rw [hi.ents]; exact hst.ents
+  have hfreeW : ∀ e ∈ a :: (as ++ [y]), isFree e = true → e ∈ a :: as := by
+    intro e he hf
+    rcases fr_mem_run.1 he with h | h
+    · exact h
+    · subst h; rw [hyf] at hf; cases hf
+  have ha0 : a.addr ≠ 0 := by have := w.addr_pos ham; omega
+  refine ⟨wfs_of_parts w (by rw [hi.ents, hi.top]; exact hst) ?_ ?_ ?_ ?_ ?_, by rw [hi.ents]; exact fat⟩
+  · refine fr_freeListOk w W.hes hi.ents hok' (rem := rem ++ [s.h.dv]) (R := fr_fl s.h.top 0 (binned h2)) ?_ fs' ?_ ?_ ?_
+    · intro v
+      rw [mem_freeSet]
+      constructor
+      · rintro ⟨e, he, hf, hea⟩
+        rcases hfree e (hfreeW e he hf) hf with h | h
+        · exact List.mem_append.2 (Or.inl (hea ▸ h))
+        · exact List.mem_append.2 (Or.inr (by simp [← hea, h]))
+      · intro hv
+        rcases List.mem_append.1 hv with hv | hv
+        · obtain ⟨e, he, hf, hea⟩ := hrem v hv
+          exact ⟨e, fr_mem_run.2 (Or.inl he), hf, hea⟩
+        · simp only [List.mem_singleton] at hv
+          exact ⟨ed, fr_mem_run.2 (Or.inl hedm), hxdf, by omega⟩
+    · refine u.fl.trans ?_
+      rw [fr_fl_eq h2, u.frame.top, u.frame.dv]
+      have := List.Perm.append_left rem (fr_fl_dv (top := s.h.top) (b := binned h2) hdv0)
+      simpa using this
+    · rw [fr_fl_eq H, hi.top, hi.dv, binned_congr hi.sbins hi.tbins]
+      exact fr_fl_dv ha0
+    · rcases hP with h | h | h
+      · exact Or.inl (List.mem_append.2 (Or.inl h))
+      · exact Or.inl (List.mem_append.2 (Or.inr (by simp [h])))
+      · exact Or.inr (fr_cin_not_listed w ham h)
+  all_goals
+    have hbf := fr_bins_frame w u (H := H) W.hes hi.ents hok' hi.sbins hi.tbins
+      (fun e he hf => by
+        rcases hfree e (hfreeW e he hf) hf with h | h
+        · exact Or.inl h
+        · exact Or.inr (Or.inr h))
+  · exact hbf.1
+  · exact hbf.2
+  · unfold dvOk
+    rw [hi.dv, hi.dvsize, if_neg ha0, hi.ents, hfm]
+    simp [isFree]; omega
+  · refine topOk_window w W.hes hi.ents hok' hne hi.top hi.topsize ?_
+    intro e he
+    rcases fr_mem_run.1 he with h | h
+    · exact ⟨hfree_top e h, hnff e h⟩
+    · subst h; exact ⟨fun hf => (by rw [hyf] at hf; cases hf), Or.inl hyc⟩
+
+/-- **the run ends in the old `top`, the merged chunk is the new `top`** (`free-into-top`,
+`dispose-into-top`); `dv` is reset when it was the merged predecessor -/
+theorem fr_top_wfs {s : St} (w : WFS s) {pre post : List Ent} {a y : Ent} {as : List Ent} {g : Seg} {p : Nat}
+    (W : fr_Win s pre post a as y g p) {h2 : Heap} {rem : List Nat} (u : fr_Unl s h2 rem)
+    (hfree : ∀ e ∈ a :: as, isFree e = true → e.addr ∈ rem ∨ e.addr = s.h.top ∨ e.addr = s.h.dv)
+    (hrem : ∀ v ∈ rem, ∃ e ∈ a :: as, isFree e = true ∧ e.addr = v)
+    (htopin : ∃ e ∈ a :: as, e.addr = s.h.top)
+    (hP : a.addr ∈ rem ∨ a.addr = s.h.dv ∨ a.cin = true)
+    (hyc : y.cin = false) (hyp : y.pin = false) {S : Nat} (hS : y.addr = a.addr + S)
+    {H : Heap} {dv' dvs' : Nat}
+    (hi : HeapIs H (pre ++ [{ addr := a.addr, size := S, cin := false, pin := true, pfoot := a.pfoot }, y] ++ post)
+      h2.sbins h2.tbins dv' dvs' a.addr S)
+    (hdv : ((∃ e ∈ a :: as, e.addr = s.h.dv) ∧ s.h.dv ≠ 0 ∧ dv' = 0 ∧ dvs' = 0) ∨
+      ((∀ e ∈ a :: as, e.addr ≠ s.h.dv) ∧ dv' = s.h.dv ∧ dvs' = s.h.dvsize)) :
+    WFS { s with h := H } ∧ FreeAtTab s.h.ents H.ents p := by
+  have hb := W.bounds w
+  have ham : a ∈ s.h.ents := W.mem_run a List.mem_cons_self
+  have hym : y ∈ s.h.ents := W.mem y (fr_mem_run.2 (Or.inr rfl))
+  have hys := shapeOk_free w.shape hym hyc
+  obtain ⟨g0, rest, tpre, xt, f, tpost, hsegs, htes, hxta, hxtf, hxts, hfa, hfc, hfp, hfs80, hgb, hgend, htop0, hgxt, hgf⟩ :=
+    w.top_parts (w.topsize_ne W.hg)
+  have hg0 : g0 ∈ s.segs := by rw [hsegs]; exact List.mem_cons_self
+  have hxtm : xt ∈ s.h.ents := by rw [htes]; simp
+  have hfm0 : f ∈ s.h.ents := by rw [htes]; simp
+  obtain ⟨et, hetm, heta⟩ := htopin
+  have : et = xt := entsOk_addr_inj w.ents (W.mem_run et hetm) hxtm (by omega)
+  subst this
+  have hgg : g = g0 := gl_seg_unique w.segsDisjoint W.hg hg0 (W.hgm et (fr_mem_run.2 (Or.inl hetm))) hgxt rfl
+  subst hgg
+  -- `y` is the foot word
+  have hyf0 : y = f := by
+    obtain ⟨g', hg', hgy', hyend⟩ := fr_ff_end w hym hyc hyp
+    have : g' = g := gl_seg_unique w.segsDisjoint hg' W.hg hgy' (W.hgm y (fr_mem_run.2 (Or.inr rfl))) rfl
+    subst this
+    have hsep := entsOk_sep w.ents
+    have hypos := entsOk_pos w.ents y hym
+    rcases Nat.lt_trichotomy y.addr f.addr with h | h | h
+    · have := hsep y hym f hfm0 h; omega
+    · exact entsOk_addr_inj w.ents hym hfm0 h
+    · have := hsep f hfm0 y hym h; omega
+  have hbt := hb.2.1 et hetm
+  have hdvtop := w.dv_ne_top htop0
+  have hrt := fr_unl_top w u htop0
+  have hyf : isFree y = false := by simp [isFree, hyp]
+  have hin_a := w.struct.in_seg W.hg ham (W.hgm a List.mem_cons_self)
+  obtain ⟨hst, fat, fs', hfm⟩ := fr_merge_table w W.hes W.hg W.hgm W.hc W.pin W.a8 hys
+    (m := { addr := a.addr, size := S, cin := false, pin := true, pfoot := a.pfoot })
+    (y' := y) (top' := a.addr)
+    rfl (by simp only; omega) rfl rfl rfl rfl rfl hyp
+    (by simp [linkOk, isFree, hyc, hyp])
+    (by
+      intro e he
+      rcases List.mem_append.1 he with he | he
+      · have := hb.1 e he
+        constructor <;> intro h <;> omega
+      · have := hb.2.2.2 e he
+        have := hb.2.2.1
+        constructor <;> intro h <;> omega)
+    W.cin W.pm
+  have hok' : entsOk H.ents = true := by rw [hi.ents]; exact hst.ents
+  have hfreeW : ∀ e ∈ a :: (as ++ [y]), isFree e = true → e ∈ a :: as := by
+    intro e he hf
+    rcases fr_mem_run.1 he with h | h
+    · exact h
+    · subst h; rw [hyf] at hf; cases hf
+  have ha0 : a.addr ≠ 0 := by have := w.addr_pos ham; omega
+  have hfy : findEnt H.ents y.addr = some y := by
+    rw [hi.ents]; exact entsOk_find y (by simp) hst.ents
+  refine ⟨wfs_of_parts w (by rw [hi.ents, hi.top]; exact hst) ?_ ?_ ?_ ?_ ?_, by rw [hi.ents]; exact fat⟩
+  · rcases hdv with ⟨⟨ed, hedm, heda⟩, hdv0, hd1, hd2⟩ | ⟨hnd, hd1, hd2⟩
+    · -- `dv` is part of the run
+      have hedf : isFree ed = true := by
+        have hfl : s.h.dv ∈ freeList s.h := mem_freeList.2 (Or.inr (Or.inl ⟨hdv0, rfl⟩))
+        have := ((freeListOk_iff s.h).1 w.freeList).2.2 _ hfl
+        obtain ⟨e', he', hf⟩ := isFreeAt_iff.1 this
+        rw [← heda, entsOk_find ed (W.mem_run ed hedm) w.ents] at he'
+        injection he' with he'
+        subst he'
+        exact hf
+      refine fr_freeListOk w W.hes hi.ents hok' (rem := rem ++ [s.h.top, s.h.dv]) (R := fr_fl 0 0 (binned h2))
+        ?_ fs' ?_ ?_ ?_
+      · intro v
+        rw [mem_freeSet]
+        constructor
+        · rintro ⟨e, he, hf, hea⟩
+          rcases hfree e (hfreeW e he hf) hf with h | h | h
+          · exact List.mem_append.2 (Or.inl (hea ▸ h))
+          · exact List.mem_append.2 (Or.inr (by simp [← hea, h]))
+          · exact List.mem_append.2 (Or.inr (by simp [← hea, h]))
+        · intro hv
+          rcases List.mem_append.1 hv with hv | hv
+          · obtain ⟨e, he, hf, hea⟩ := hrem v hv
+            exact ⟨e, fr_mem_run.2 (Or.inl he), hf, hea⟩
+          · simp only [List.mem_cons, List.not_mem_nil, or_false] at hv
+            rcases hv with hv | hv
+            · exact ⟨et, fr_mem_run.2 (Or.inl hetm), hxtf, by omega⟩
+            · exact ⟨ed, fr_mem_run.2 (Or.inl hedm), hedf, by omega⟩
+      · refine u.fl.trans ?_
+        rw [fr_fl_eq h2, u.frame.top, u.frame.dv, fr_fl_top htop0]
+        have h1 : s.h.top :: fr_fl 0 s.h.dv (binned h2) ~ s.h.top :: s.h.dv :: fr_fl 0 0 (binned h2) :=
+          List.Perm.cons _ (fr_fl_dv hdv0)
+        have := List.Perm.append_left rem h1
+        simpa using this
+      · rw [fr_fl_eq H, hi.top, hi.dv, binned_congr hi.sbins hi.tbins, hd1, fr_fl_top ha0]
+      · rcases hP with h | h | h
+        · exact Or.inl (List.mem_append.2 (Or.inl h))
+        · exact Or.inl (List.mem_append.2 (Or.inr (by simp [h])))
+        · exact Or.inr (fr_cin_not_listed w ham h)
+    · refine fr_freeListOk w W.hes hi.ents hok' (rem := rem ++ [s.h.top]) (R := fr_fl 0 s.h.dv (binned h2))
+        ?_ fs' ?_ ?_ ?_
+      · intro v
+        rw [mem_freeSet]
+        constructor
+        · rintro ⟨e, he, hf, hea⟩
+          rcases hfree e (hfreeW e he hf) hf with h | h | h
+          · exact List.mem_append.2 (Or.inl (hea ▸ h))
+          · exact List.mem_append.2 (Or.inr (by simp [← hea, h]))
+          · exact absurd h (hnd e (hfreeW e he hf))
+        · intro hv
+          rcases List.mem_append.1 hv with hv | hv
+          · obtain ⟨e, he, hf, hea⟩ := hrem v hv
+            exact ⟨e, fr_mem_run.2 (Or.inl he), hf, hea⟩
+          · simp only [List.mem_singleton] at hv
+            exact ⟨et, fr_mem_run.2 (Or.inl hetm), hxtf, by omega⟩
+      · refine u.fl.trans ?_
+        rw [fr_fl_eq h2, u.frame.top, u.frame.dv, fr_fl_top htop0]
+        simp
+      · rw [fr_fl_eq H, hi.top, hi.dv, binned_congr hi.sbins hi.tbins, hd1, fr_fl_top ha0]
+      · rcases hP with h | h | h
+        · exact Or.inl (List.mem_append.2 (Or.inl h))
+        · exact absurd h (hnd a List.mem_cons_self)
+        · exact Or.inr (fr_cin_not_listed w ham h)
+  all_goals
+    have hbf := fr_bins_frame w u (H := H) W.hes hi.ents hok' hi.sbins hi.tbins
+      (fun e he hf => hfree e (hfreeW e he hf) hf)
+  · exact hbf.1
+  · exact hbf.2
+  · rcases hdv with ⟨_, _, hd1, hd2⟩ | ⟨hnd, hd1, hd2⟩
+    · unfold dvOk
+      rw [hi.dv, hi.dvsize, hd1, hd2]
+      rfl
+    · exact dvOk_window w W.hes hi.ents hok' (hi.dv.trans hd1) (hi.dvsize.trans hd2)
+        (fun e he hf => hnd e (hfreeW e he hf))
+  · have hrec := gl_head_recAt w hsegs
+    unfold topOk
+    simp only [hsegs]
+    rw [hi.top, hi.topsize, hi.ents, hfm, ← hS, ← hi.ents, hfy]
+    subst hyf0
+    simp only [isFree, hyc, hyp, top_foot_size_eq, Bool.and_eq_true, decide_eq_true_eq, Bool.not_false,
+      Bool.and_self, Bool.true_and]
+    refine ⟨⟨⟨⟨⟨⟨by omega, by omega⟩, by omega⟩, by omega⟩, hrec⟩, ?_⟩, hfs80⟩
+    trivial
+
+/-! ### building windows -/
+
+theorem fr_contig_snoc {l : List Ent} {n y : Ent} : ∀ {q : Nat}, contig (l ++ [n]) q = true →
+    y.addr = n.addr + n.size → contig (l ++ [n] ++ [y]) q = true := by
+  induction l with
+  | nil =>
+    intro q h hy
+    simp only [List.nil_append, contig, Bool.and_true, decide_eq_true_eq] at h
+    simp only [List.nil_append, List.cons_append, contig, Bool.and_true, Bool.and_eq_true, decide_eq_true_eq]
+    omega
+  | cons c l ih =>
+    intro q h hy
+    simp only [List.cons_append, contig, Bool.and_eq_true, decide_eq_true_eq] at h ⊢
+    exact ⟨h.1, ih h.2 hy⟩
+
+/-- the window of a chunk `x` whose predecessor is in use -/
+theorem fr_win0 {s : St} {pre post : List Ent} {x n : Ent} {g : Seg} (hes : s.h.ents = pre ++ x :: n :: post)
+    (hg : g ∈ s.segs) (hgx : inSeg g x = true) (hgn : inSeg g n = true) (hna : n.addr = x.addr + x.size)
+    (hxp : x.pin = true) (hx8 : x.size ≠ 8) : fr_Win s pre post x [] n g x.addr := by
+  refine ⟨by rw [hes]; simp, hg, ?_, ?_, hxp, hx8, ?_, ⟨x, List.mem_cons_self, rfl⟩⟩
+  · intro e he
+    simp only [List.nil_append, List.mem_cons, List.not_mem_nil, or_false] at he
+    rcases he with rfl | rfl <;> assumption
+  · simp only [List.nil_append, contig, Bool.and_true, Bool.and_eq_true, decide_eq_true_eq, true_and]
+    omega
+  · intro e he _
+    simp only [List.mem_cons, List.not_mem_nil, or_false] at he
+    rw [he]
+
+/-- the window of a chunk `x` whose predecessor `wv` is free -/
+theorem fr_win1 {s : St} (w : WFS s) {pre post : List Ent} {wv x n : Ent} {g : Seg}
+    (hes : s.h.ents = pre ++ wv :: x :: n :: post) (hg : g ∈ s.segs) (hgw : inSeg g wv = true)
+    (hgx : inSeg g x = true) (hgn : inSeg g n = true) (hxa : x.addr = wv.addr + wv.size)
+    (hna : n.addr = x.addr + x.size) (hwf : isFree wv = true) : fr_Win s pre post wv [x] n g x.addr := by
+  obtain ⟨hwc, hwp⟩ := isFree_iff.1 hwf
+  have hwm : wv ∈ s.h.ents := by rw [hes]; simp
+  have := shapeOk_free w.shape hwm hwc
+  refine ⟨by rw [hes]; simp, hg, ?_, ?_, hwp, by omega, ?_, ⟨x, by simp, rfl⟩⟩
+  · intro e he
+    simp only [List.cons_append, List.nil_append, List.mem_cons, List.not_mem_nil, or_false] at he
+    rcases he with rfl | rfl | rfl <;> assumption
+  · simp only [List.cons_append, List.nil_append, contig, Bool.and_true, Bool.and_eq_true, decide_eq_true_eq, true_and]
+    omega
+  · intro e he hc
+    simp only [List.mem_cons, List.not_mem_nil, or_false] at he
+    rcases he with rfl | rfl
+    · rw [hwc] at hc; cases hc
+    · rfl
+
+/-- the free successor `n` joins the run -/
+theorem fr_win_snoc {s : St} {pre post : List Ent} {a n y : Ent} {as : List Ent} {g : Seg} {p : Nat}
+    (W : fr_Win s pre (y :: post) a as n g p) (hnc : n.cin = false) (hgy : inSeg g y = true)
+    (hya : y.addr = n.addr + n.size) : fr_Win s pre post a (as ++ [n]) y g p := by
+  refine ⟨by rw [W.hes]; simp, W.hg, ?_, ?_, W.pin, W.a8, ?_, ?_⟩
+  · intro e he
+    rcases fr_mem_run.1 he with h | h
+    · exact W.hgm e (by simpa using h)
+    · subst h; exact hgy
+  · have := fr_contig_snoc (l := a :: as) (n := n) (y := y) (q := a.addr) W.hc hya
+    simpa using this
+  · intro e he hc
+    rcases fr_mem_run.1 (by simpa using he) with h | h
+    · exact W.cin e h hc
+    · subst h; rw [hnc] at hc; cases hc
+  · obtain ⟨e, he, hea⟩ := W.pm
+    exact ⟨e, by simp only [List.mem_cons, List.mem_append] at he ⊢; rcases he with h | h <;> simp [h], hea⟩
+
+theorem fr_pin_false_eta {y : Ent} (h : y.pin = false) (v : Nat) :
+    ({ y with pfoot := v } : Ent) = { y with pin := false, pfoot := v } := by
+  cases y; simp_all
+
 end TinyVerif.Dl
